@@ -975,5 +975,38 @@ def r12_memo(chk: Check) -> None:
                          "MEMO-KEY(anchor modules of this property): report entries are built per exchange: a cache keyed by less writes another exchange's data", floor=0)
 
 
+def r13_recorded_cases_have_own_identity(chk: Check) -> None:
+    chk.rule("C16.R13", "DISTINCT-KEY(recorded exchanges): ScenarioRecorder keeps cases and interactions in dicts keyed by Case.id (a default_factory field); a case handed to record_case must own its id - a copy made with dataclasses.replace / copy / deepcopy of ANOTHER case carries that case's id over (no `id=` override), so its exchange overwrites the other one and the cassette / HAR lose a request the server really received", floor=4)
+    P = chk.project
+    COPIERS = ("replace", "copy", "deepcopy", "deepclone")
+    n = 0
+    for fn in P.all_functions():
+        if isinstance(fn.node, ast.Lambda):
+            continue
+        for c in body_calls(fn):
+            if last_attr(c) != "record_case":
+                continue
+            v = kwarg(c, "case")
+            if v is None:
+                continue
+            n += 1
+            construct = f"record_case(case={unparse(v, 40)}) - the case owns its id"
+            if not isinstance(v, ast.Name):
+                chk.ok("C16.R13", fn, construct, "not a local name: the case comes from the caller / an attribute", fn.loc(c))
+                continue
+            bad = None
+            for _st, val in assignments_to(fn.node, v.id):
+                if isinstance(val, ast.Call) and last_attr(val) in COPIERS and kwarg(val, "id") is None and val.args:
+                    src_names = names_in(val.args[0])
+                    # a copy of a case that is recorded in this function as well (or of any other case object)
+                    bad = (val, src_names)
+            if bad is None:
+                chk.ok("C16.R13", fn, construct, "no definition of this name is a field-for-field copy of another case", fn.loc(c))
+            else:
+                chk.violation("C16.R13", fn, construct, f"`{v.id} = {unparse(bad[0], 60)}` copies every field including `id`: both cases are stored under one key in ScenarioRecorder.cases / .interactions, the later exchange replaces the earlier one in every report", fn.loc(bad[0]))
+    if n < 4:
+        chk.undecided("C16.R13", "<discovery>", f"record_case sites={n}", "fewer record_case call sites than confirmed by hand (5)")
+
+
 def rules(tier: str) -> list:  # type: ignore[type-arg]
-    return [r1_yaml_flow, r1c_line_protocol, r2_conditional_writer, r2b_failures_once, r3_structured_writers, r6_total_operations, r7_handlers, r8_header_fields, r9_writer_waited_for, r10_membership_is_data, r11_junit_text_xml_safe, r12_memo]
+    return [r1_yaml_flow, r1c_line_protocol, r2_conditional_writer, r2b_failures_once, r3_structured_writers, r6_total_operations, r7_handlers, r8_header_fields, r9_writer_waited_for, r10_membership_is_data, r11_junit_text_xml_safe, r12_memo, r13_recorded_cases_have_own_identity]
